@@ -76,6 +76,25 @@ func (t *Collection) reclaimMarkUpdate(nloc *nodeLoc,
 	return n
 }
 
+// Undoes the marks of an aborted union/split/join: the version stays
+// current and must keep every one of its nodes.
+func (t *Collection) reclaimMarkClear(nloc *nodeLoc, reclaimMark *node) {
+	if nloc.isEmpty() {
+		return
+	}
+	n := nloc.Node()
+	if n == nil {
+		return
+	}
+	t.rootLock.Lock()
+	if n.next == reclaimMark {
+		n.next = nil
+	}
+	t.rootLock.Unlock()
+	t.reclaimMarkClear(&n.left, reclaimMark)
+	t.reclaimMarkClear(&n.right, reclaimMark)
+}
+
 // Marks the cached, still unmarked nodes of a whole tree.  The caller
 // holds rootLock.
 func (t *Collection) markTreeReclaimableUnlocked(nloc *nodeLoc, reclaimMark *node) {
